@@ -33,9 +33,13 @@ CLAIMED = {
          '_process_incoming and the receive buffer; the model is tied to the real buffer code by comparing recognised '
          'PDUs and residue, and the provider-level statement (indications, PDUs sent, final state) is checked on the '
          'real loop for every single cut and pairs of cuts of a corpus of conversations, dribble, coalescing, burst '
-         'and pre-queued delivery. The lift of the theorem to the whole provider is part of C05 (partial).',
-         'Trusted: Lean kernel; S2 fakes (select/recv/clock); the reactive user of harness/scen.py. Partial: the '
-         'provider-level statement is exhaustive only over the corpus and the cut classes named, not proved.'),
+         'and pre-queued delivery. The provider-level statement is proved for the loop model too '
+         '(provider_is_function_of_stream, provider_segmentation_independent: for every calm state, every byte '
+         'segmentation, every placement of idle passes, optional peer close; idle_drains shows the premise is met).',
+         'Trusted: Lean kernel; S2 fakes (select/recv/clock); the reactive user of harness/scen.py. Partial: the loop '
+         'theorem is about the model of run() (kind-abstract; tied to the real loop pass by pass in C05) and covers '
+         'schedules in which only the network acts; with a reacting local user the real loop is compared over the '
+         'corpus and the cut classes named.'),
  'C06': ('DESIGN.md §6 C06',
          'Lean 4 theorems on the fragmentation model + correspondence with the real encoder on a boundary grid',
          'frag_size, frag_shape, frag_content, file_eq_bytes hold for every command set, data set, context and usable '
